@@ -127,7 +127,7 @@ func compareRecords(frames []Frame, n int, got []logstorage.Record) string {
 
 func runC03(r *vk.Run) {
 	r.SetRule("sequences of 0..12 generated records (bodies from adversarial atoms / random bytes, timestamps over 1970..2262 with ns digits and zone offsets, stdout+stderr) are encoded by the harness and decoded by ParseLog. " +
-		"phase roundtrip: x7 read fragmentations. phase truncate: EVERY byte offset as cut point x2 fragmentations. phase corrupt: daemon-error / bad-timestamp / no-space frame at EVERY frame index. phase readerr: non-EOF read error at every byte. " +
+		"phase roundtrip: x7 read fragmentations. phase truncate: EVERY byte offset as cut point x2 fragmentations. phase corrupt: daemon-error / bad-timestamp / no-space frame at EVERY frame index. phase merged: a broken frame (often the first) in one of 2..4 merged containers. phase readerr: non-EOF read error at every byte. " +
 		"non-trivial = distinct streams (per phase; plus one entry per corrupted frame position) with at least one record; the numbers of cut points, error frames and fired read errors are separate counters.")
 	r.Assume("frame layout [type,0,0,0,len32be] + RFC3339Nano + ' ' + body is Docker's multiplexed framing with timestamps",
 		"a cut after a complete header but before the end of its body counts as 'inside the frame body'",
@@ -310,6 +310,57 @@ func runC03(r *vk.Run) {
 	})
 
 	ioErr := errors.New("verif: connection reset")
+	// the same when the broken stream is one of several being merged: a frame that cannot be decoded is
+	// an error of the merged stream too, wherever it sits — including the very first frame of a
+	// container, which the merge reads while it is still setting itself up
+	r.Phase("merged", r.N(300, 60000), func(c *vk.Case) {
+		rng := c.Rng
+		n := rng.Range(2, 4)
+		var inv []CSpec
+		for i := 0; i < n; i++ {
+			cs := CSpec{ID: fmt.Sprintf("id%d", i), Name: fmt.Sprintf("/c%d", i), Image: "img", State: "running", Labels: map[string]string{}}
+			for j := 0; j < rng.Range(1, 4); j++ {
+				cs.Frames = append(cs.Frames, Frame{Type: 1, TS: 1700000000e9 + int64(j)*1e9 + int64(i), Body: fmt.Sprintf("c%d#%d\n", i, j)})
+			}
+			inv = append(inv, cs)
+		}
+		fd := newFakeDocker(inv)
+		bad := rng.Intn(n)
+		at := rng.Intn(len(inv[bad].Frames))
+		if rng.Chance(2, 3) {
+			at = 0
+		}
+		mod := append([]Frame(nil), inv[bad].Frames...)
+		kind := vk.Pick(rng, []string{"daemon-error", "bad-timestamp", "no-space", "cut-in-body"})
+		switch kind {
+		case "daemon-error":
+			mod[at] = Frame{Type: 3, Raw: "error from daemon in stream: boom"}
+		case "bad-timestamp":
+			mod[at].Raw = "2024-13-01T00:00:00.000000000Z x"
+		case "no-space":
+			mod[at].Raw = "nospace"
+		}
+		data := EncodeFrames(mod)
+		if kind == "cut-in-body" {
+			starts, ends := FrameBounds(mod)
+			data = data[:starts[at]+8+(ends[at]-starts[at]-8)/2+1]
+		}
+		fd.Containers[bad].Stream = data
+		_, openErr, iterErr := drainSelect(fd)
+		c.Eval(1)
+		det := map[string]any{"inventory": inv, "broken_container": bad, "broken_frame": at, "kind": kind}
+		if openErr == nil && iterErr == nil {
+			c.Fail("", fmt.Sprintf("%s frame at index %d of container %d (of %d merged) not reported as an error", kind, at, bad, n), det)
+			return
+		}
+		c.Count("merged_broken_streams", 1)
+		if at == 0 {
+			c.Count("merged_broken_first_frame", 1)
+		}
+		c.Nontrivial(fmt.Sprintf("merged|%d", c.Idx))
+	})
+	r.Require("merged_broken_first_frame", 100)
+
 	r.Phase("readerr", r.N(100, 40000), func(c *vk.Case) {
 		frames := genFrames(c.Rng, 6)
 		for len(frames) == 0 {
